@@ -21,6 +21,13 @@ handed to it by error_transfer_matrix is captured; that array is compared with t
   branch           : which branch the source takes (single-qubit shortcut vs general; observed by
                      wrapping Basis.four_element_traces) vs the model's `shortcutTaken`
 
+Deviations of quantities that are LINEAR in the decay amplitudes / frequency shifts (the cumulant
+function, the argument of expm) are measured relative to max(max |reference|, max |inputs|): where
+the exact value vanishes by cancellation (zero spectrum + purely imaginary user-supplied decay
+amplitudes: Re(i x) = 0) both sides are rounding noise ~1e-17 and a deviation relative to the
+reference alone is meaningless (this made the thorough tier report 1.0 for cases 15 and 51).
+Every MISMATCH line carries the case parameters; FFV_DUMPBAD=<file> appends the failing requests.
+
 Usage: /venv/bin/python corr_c09etmfn.py [n_random_cases] [seed]
 """
 import os
@@ -171,14 +178,24 @@ def make_spectrum(rng, shape, m, omega, special):
     return (S + S.conj().swapaxes(0, 1))/2
 
 
-def rel_err(got, ref):
+def rel_err(got, ref, scale=0.0):
+    """max |got - ref| relative to max(max |ref|, scale).  `scale` is the magnitude of the INPUTS the
+    compared quantity is a linear function of (decay amplitudes, frequency shifts, summed blocks):
+    when the exact result vanishes by cancellation (e.g. purely imaginary user-supplied decay
+    amplitudes, zero spectrum) both sides are rounding noise of size eps*scale and a deviation
+    relative to max |ref| alone would be meaningless."""
     if got is None or got.shape != ref.shape:
         return np.inf
     if ref.size == 0:
         return 0.0
     if not (np.all(np.isfinite(got)) and np.all(np.isfinite(ref))):
         return 0.0 if np.array_equal(np.isnan(got), np.isnan(ref)) else np.inf
-    return float(np.max(np.abs(got - ref))/max(np.max(np.abs(ref)), 1e-300))
+    return float(np.max(np.abs(got - ref))/max(np.max(np.abs(ref)), float(scale), 1e-300))
+
+
+def amax(*arrs):
+    """largest modulus among the given (optional) arrays"""
+    return max([float(np.max(np.abs(a))) for a in arrs if a is not None and np.size(a)] + [0.0])
 
 
 class Capture:
@@ -250,18 +267,18 @@ def main():
     mism = []
     seen = {}
 
-    def add(comp, line, check, cov=None):
-        jobs.append((comp, line, check))
+    def add(comp, line, check, cov=None, info=''):
+        jobs.append((comp, line, check, info))
         if cov is not None:
             seen.setdefault(comp, set()).add(cov)
 
-    def check_value(ref):
+    def check_value(ref, scale=0.0):
         def chk(o):
             if not o.startswith('ok'):
                 return np.inf, 'model: ' + o
             t = o.split(' ')
             got = bits2arr(t[3] if len(t) > 3 else '', (int(t[1]), int(t[2])))
-            return rel_err(got, np.asarray(ref, dtype=float)), ''
+            return rel_err(got, np.asarray(ref, dtype=float), scale), ''
         return chk
 
     def check_err(pyres):
@@ -308,6 +325,12 @@ def main():
         S = make_spectrum(rng, shape, m, omega, specials[i % len(specials)])
         N = len(basis)
         cov = (bkind, shape, second, sel is not None, pars, ffc)
+        info = (f'case {i}: basis={bkind} d={d} n_dt={n_dt} n_nops={n_nops} pulse={kind} spectrum_ndim={shape} '
+                f'second_order={second} ids={sel} idx={list(map(int, idx))} pars={pars} ffcached={ffc} nO={nO}')
+        q = build()
+        G = numeric.calculate_decay_amplitudes(q, S, omega, sel, 'total', memory_parsimonious=pars)
+        D = numeric.calculate_frequency_shifts(q, S, omega, sel) if second else None
+        in_scale = amax(G, D)          # the cumulant function is linear in (G, D)
         # ---------------- error_transfer_matrix from the pulse --------------------------------
         p = build()
         if ffc:
@@ -333,7 +356,7 @@ def main():
                 '1' if cached else '0', idx_s, carr2bits(np.array(basis)), carr2bits(B),
                 carr2bits(Fgen) if Fgen is not None else '-',
                 carr2bits(F2) if F2 is not None else '-', carr2bits(S), arr2bits(omega)])
-        add('etmfn/pulse', etm_line(), check_value(Karg), cov)
+        add('etmfn/pulse', etm_line(), check_value(Karg, in_scale), cov, info)
         # branch observed in the source vs the model's selector
         model_short = (d == 2 and btype_tok(basis) in ('Pauli', 'GGM') and close_tok(basis) == '1')
         add('branch', None, (lambda ms=model_short, tg=took_general, bk=bkind:
@@ -344,20 +367,18 @@ def main():
                                                   memory_parsimonious=pars)
         with Capture() as cap2:
             U2 = numeric.error_transfer_matrix(cumulant_function=Kfn)
-        add('etmfn/modes', None, (lambda a=U, b=U2: lambda o: (rel_err(b, a), ''))(), cov)
+        add('etmfn/modes', None, (lambda a=U, b=U2: lambda o: (rel_err(b, a), ''))(), cov, info)
         add('etmgiven', ' '.join(['etmgiven', 'array', shape_tok(Kfn.shape[:-2]), str(N), str(N),
-                                  arr2bits(Kfn)]), check_value(cap2.args[-1]), ('cumfn-shape', Kfn.ndim))
+                                  arr2bits(Kfn)]), check_value(cap2.args[-1], amax(Kfn)), ('cumfn-shape', Kfn.ndim), info)
         # ---------------- rejections of error_transfer_matrix ---------------------------------
         if i % 4 == 0:
             for hp, hs, ho in [('0', '1', '1'), ('1', '0', '1'), ('1', '1', '0'), ('0', '0', '0')]:
                 pyres = run_py(lambda: numeric.error_transfer_matrix(
                     build() if hp == '1' else None, S if hs == '1' else None,
                     omega if ho == '1' else None, sel, second))
-                add('etmfn/reject', etm_line(hp, hs, ho), check_err(pyres), (hp, hs, ho))
+                add('etmfn/reject', etm_line(hp, hs, ho), check_err(pyres), (hp, hs, ho),
+                    info + f' pulse/spectrum/omega given={hp}{hs}{ho}')
         # ---------------- calculate_cumulant_function, which='total' --------------------------
-        q = build()
-        G = numeric.calculate_decay_amplitudes(q, S, omega, sel, 'total', memory_parsimonious=pars)
-        D = numeric.calculate_frequency_shifts(q, S, omega, sel) if second else None
         Gc = G + 1j*rng.standard_normal(G.shape)*(i % 3 == 0)      # complex user-supplied amplitudes
         variants = [
             # (spectrum, omega, decay_amplitudes, frequency_shifts, second)
@@ -381,6 +402,10 @@ def main():
             qq = build()
             pyres = run_py(lambda: numeric.calculate_cumulant_function(
                 qq, vs, vo, sel, 'total', vsec, vg, vd, memory_parsimonious=pars))
+            vinfo = (info + f' | variant {vi}: spectrum={"given" if vs is not None else None} '
+                     f'omega={"given" if vo is not None else None} '
+                     f'decay_amplitudes={None if vg is None else (np.shape(vg), np.asarray(vg).dtype.name)} '
+                     f'frequency_shifts={None if vd is None else np.shape(vd)} second_order={vsec}')
             gcalc = G if (vs is not None and vo is not None) else None
             dcalc = (D if D is not None else (numeric.calculate_frequency_shifts(build(), S, omega, sel)
                                              if vsec and vs is not None and vo is not None else None))
@@ -391,18 +416,21 @@ def main():
                             + arr_toks(dcalc if vsec else None, N))
             if pyres[0] == 'ok':
                 ref = pyres[1]
+                vscale = amax(vg if vg is not None else gcalc, (vd if vd is not None else dcalc) if vsec else None)
 
-                def chk(o, ref=ref):
+                def chk(o, ref=ref, vscale=vscale):
                     if not o.startswith('ok'):
                         return np.inf, 'model: ' + o
                     t = o.split(' ')
                     sh = tuple(int(s) for s in t[1].split(',')) if t[1] != '-' else ()
                     if sh != ref.shape[:-2]:
                         return np.inf, f'shape {sh} vs {ref.shape}'
-                    return rel_err(bits2arr(t[2] if len(t) > 2 else '', ref.shape), ref), ''
-                add('cumfn/total', line, chk, (bkind, shape, vsec, vi))
+                    got = bits2arr(t[2] if len(t) > 2 else '', ref.shape)
+                    return rel_err(got, ref, vscale), (f'input scale {vscale:.3e} max|model| {np.max(np.abs(got), initial=0.0):.3e} '
+                                               f'max|package| {np.max(np.abs(ref), initial=0.0):.3e}')
+                add('cumfn/total', line, chk, (bkind, shape, vsec, vi), vinfo)
             else:
-                add('cumfn/reject', line, check_err(pyres), (vi,))
+                add('cumfn/reject', line, check_err(pyres), (vi,), vinfo)
         # ---------------- which='correlations' ---------------------------------------------
         if i % 3 == 1:
             p1, p2 = build(), build()
@@ -420,17 +448,18 @@ def main():
                 if pyres[0] == 'ok':
                     ref = pyres[1]
 
-                    def chk(o, ref=ref):
+                    def chk(o, ref=ref, vscale=amax(Gpc)):
                         if not o.startswith('ok'):
                             return np.inf, 'model: ' + o
                         t = o.split(' ')
                         sh = tuple(int(s) for s in t[1].split(',')) if t[1] != '-' else ()
                         if sh != ref.shape[:-2]:
                             return np.inf, f'shape {sh} vs {ref.shape}'
-                        return rel_err(bits2arr(t[2] if len(t) > 2 else '', ref.shape), ref), ''
-                    add('cumfn/corr', line, chk, (bkind, shape))
+                        return rel_err(bits2arr(t[2] if len(t) > 2 else '', ref.shape), ref, vscale), ''
+                    add('cumfn/corr', line, chk, (bkind, shape), info + f' | correlations second_order={vsec}')
                 else:
-                    add('cumfn/reject', line, check_err(pyres), ('corr-second',))
+                    add('cumfn/reject', line, check_err(pyres), ('corr-second',),
+                        info + f' | correlations second_order={vsec}')
     # ---------------- error_transfer_matrix(cumulant_function=…), special arguments ---------------
     specials_given = [
         ('array', np.zeros((0, 3, 3))), ('array', rng.standard_normal((4, 4))),
@@ -454,23 +483,29 @@ def main():
         if pyres[0] == 'ok':
             ref = np.asarray(cap.args[-1], dtype=float)
             ref = ref.reshape((1, 1)) if ref.ndim == 0 else ref
-            add('etmgiven', line, check_value(ref), (kindg, np.ndim(arg)))
+            add('etmgiven', line, check_value(ref, amax(arg)), (kindg, np.ndim(arg)),
+                f'cumulant_function kind={kindg} shape={np.shape(arg)}')
         else:
-            add('etmgiven/reject', line, check_err(pyres), (kindg, np.ndim(arg)))
+            add('etmgiven/reject', line, check_err(pyres), (kindg, np.ndim(arg)),
+                f'cumulant_function kind={kindg} shape={np.shape(arg)}')
 
-    reqs = [ln for _, ln, _ in jobs if ln is not None]
+    reqs = [ln for _, ln, _, _ in jobs if ln is not None]
     if os.environ.get('FFV_DUMP'):
         open(os.environ['FFV_DUMP'], 'w').write('\n'.join(reqs) + '\n')
         return 0
     outs = iter(driver(reqs))
     worst = {}
     count = {}
-    for comp, ln, chk in jobs:
+    for comp, ln, chk, info in jobs:
         dev, detail = chk(next(outs) if ln is not None else None)
+        detail = (detail + ' | ' + info).strip(' |')
         worst[comp] = max(worst.get(comp, 0.0), dev)
         count[comp] = count.get(comp, 0) + 1
         if not dev <= TOL:
             mism.append((comp, dev, detail))
+            if os.environ.get('FFV_DUMPBAD') and ln is not None:
+                with open(os.environ['FFV_DUMPBAD'], 'a') as fh:
+                    fh.write(ln + '\n')
     print(f'cases: {n} (seed {seed})')
     for comp in sorted(worst):
         print(f'{comp:18s} max rel deviation {worst[comp]:.3e}   [{count[comp]} checks, '
